@@ -663,3 +663,164 @@ class ExpectationValue(Contract):
         O = _M.fn("OUTER[gs_expectation]", z3.IntSort(), z3.IntSort(), z3.RealSort())
         return [("is-the-sum-over-norm-factor-and-order-splittings-of-<Psi|d|Psi>",
                  as_expr(result).f["val"] == O(n, n + 1))]
+
+
+# --- norm_factor: n-th order coefficient of 1 / (1 + sum_m S^(m)) -----------------------------
+#   a^(n) = sum_{k=1}^{n//2} (-1)^k sum_{compositions c of n into k parts >= 2} prod_j S^(c_j)
+# (S^(1) = 0: the first order wave function is orthogonal to the reference); every factor is
+# a separate overlap request (index hygiene).
+SIGN = z3.Function("minus_one_to_the", z3.IntSort(), z3.RealSort())
+NF_PROD = z3.Function("nf_prefix_product", z3.IntSort(), z3.IntSort(), z3.IntSort(), z3.IntSort(), z3.RealSort())
+NF_INNER = z3.Function("nf_prefix_sum_over_compositions", z3.IntSort(), z3.IntSort(), z3.IntSort(), z3.RealSort())
+NF_OUTER = z3.Function("nf_prefix_sum_over_powers", z3.IntSort(), z3.IntSort(), z3.RealSort())
+
+
+def _sign_axioms(vc, k):
+    vc.assume(SIGN(0) == 1)
+    vc.assume(SIGN(k + 1) == -SIGN(k))
+    vc.assume(SIGN(k) * SIGN(k) == 1)
+    vc.assume(SIGN(k + 1) * SIGN(k + 1) == 1)
+
+
+@register
+class _ExpandNormFactorCallers(Contract):
+    """callers' view (the function is verified under C04: contracts/c04.py)"""
+    key = GS + ".expand_norm_factor"
+    props = []
+    assumed = True
+    note = "[( (-1)^k, compositions of n into k parts >= m )] for k = 1..n//m; [(1, [(n,)])] below min_order (verified under C04)"
+
+    def apply(self, vc, a):
+        n, m = a["order"], a["min_order"]
+        if vc.decide(zor(term(n) < 0, term(m) <= 0)):
+            raise RaiseEx("Inputerror")
+        if vc.decide(term(n) < term(m)):
+            return PList([(1, PList([(n,)]))])
+        return Struct("TaylorListV", n=term(n), m=term(m))
+
+
+def _taylorlist_symiter(ip, obj):
+    from pyvc.builtins import SymIter
+    n, m = obj.f["n"], obj.f["m"]
+
+    def item(ip_, e):
+        k = term(e) + 1
+        _sign_axioms(ip_.vc, term(e))
+        pref = mk_expr(SIGN(k), False)
+        pref.f["stamps"] = frozenset()
+        return (pref, Struct("Compositions", n=n, L=k, m=m))
+    return SymIter("taylor-list", obj, Sym(n / m), item)
+
+
+C.STRUCT_SYMITER["TaylorListV"] = _taylorlist_symiter
+
+
+class _NfPowerLoop(LoopContract):
+    """for pref, termlist in taylor_expansion"""
+
+    def havoc(self, vc, frame, k, seq):
+        e = mk_expr(vc.fresh_real("norm_factor"), False)
+        e.f["stamps"] = frozenset()
+        frame["norm_factor"] = e
+        for nm in ("pref", "termlist", "term", "i1", "o"):
+            frame.locals.pop(nm, None)
+
+    def invariant(self, vc, frame, k, seq):
+        n = term(frame["order"])
+        kk = term(k)
+        _sign_axioms(vc, kk)
+        vc.assume(NF_OUTER(n, 0) == 0)
+        vc.assume(z3.Implies(kk >= 0, NF_OUTER(n, kk + 1) == NF_OUTER(n, kk) + SIGN(kk + 1) *
+                             NF_INNER(n, kk + 1, _M.NCOMP(n, kk + 1, z3.IntVal(2)))))
+        return [("accumulator-is-prefix-of-the-sum-over-the-powers-of-the-overlap",
+                 as_expr(frame["norm_factor"]).f["val"] == NF_OUTER(n, kk))]
+
+
+class _NfCompLoop(LoopContract):
+    """for term in termlist (compositions of n into L parts)"""
+
+    def havoc(self, vc, frame, k, seq):
+        e = mk_expr(vc.fresh_real("norm_factor"), False)
+        e.f["stamps"] = frozenset()
+        frame["norm_factor"] = e
+        for nm in ("term", "i1", "o"):
+            frame.locals.pop(nm, None)
+
+    def iter_spec(self, vc, frame, seq):
+        o = frame["termlist"]
+        ok = isinstance(o, Struct) and o.cls == "Compositions"
+        return [("runs-over-the-compositions-of-the-order-into-k-parts-of-at-least-2",
+                 zand(o.f["n"] == term(frame["order"]), o.f["m"] == 2) if ok else False)]
+
+    def invariant(self, vc, frame, k, seq):
+        n = term(frame["order"])
+        L = frame["termlist"].f["L"]
+        c = term(k)
+        vc.assume(NF_INNER(n, L, 0) == 0)
+        vc.assume(z3.Implies(c >= 0, NF_INNER(n, L, c + 1) == NF_INNER(n, L, c) + NF_PROD(n, L, c, L)))
+        return [("accumulator-is-outer-prefix-plus-sign-times-prefix-over-the-compositions",
+                 as_expr(frame["norm_factor"]).f["val"] == NF_OUTER(n, L - 1) + SIGN(L) * NF_INNER(n, L, c)),
+                ("prefactor-is-(-1)^k", as_expr(frame["pref"]).f["val"] == SIGN(L))]
+
+
+class _NfProdLoop(LoopContract):
+    """for o in term: i1 *= self.overlap(o)"""
+
+    def havoc(self, vc, frame, k, seq):
+        e = mk_expr(vc.fresh_real("i1"), False)
+        z = vc.fresh_bool("i1_zero")
+        vc.assume(z3.Implies(z, e.f["val"] == 0))
+        e.f["zero"] = Sym(z)
+        e.f["stamps"] = frozenset()
+        frame["i1"] = e
+        frame.locals.pop("o", None)
+
+    def _ids(self, frame):
+        t = frame["term"].f
+        return t["n"], t["L"], t["k"]
+
+    def invariant(self, vc, frame, k, seq):
+        n, L, c = self._ids(frame)
+        j = term(k)
+        vc.assume(NF_PROD(n, L, c, 0) == 1)
+        vc.assume(z3.Implies(j >= 0, NF_PROD(n, L, c, j + 1) == NF_PROD(n, L, c, j) *
+                             OVERLAP(_M.COMP(n, L, z3.IntVal(2), c, j))))
+        return [("product-is-prefactor-times-prefix-of-the-overlap-product",
+                 as_expr(frame["i1"]).f["val"] == SIGN(L) * NF_PROD(n, L, c, j))]
+
+    def at_break(self, vc, frame, k, seq):
+        # left because the product vanishes: a product with a vanishing
+        # factor vanishes (lemma zero-absorbing), so the whole product does
+        n, L, c = self._ids(frame)
+        j = term(k)
+        vc.assume(z3.Implies(z3.And(NF_PROD(n, L, c, j + 1) == 0, j + 1 <= L), NF_PROD(n, L, c, L) == 0))
+        return [("left-early-only-with-a-vanishing-product", as_expr(frame["i1"]).f["val"] == 0)]
+
+
+@lemma("C02", "zero-absorbing-product")
+def _zero_absorbing():
+    p, x = z3.Real("prefix_product"), z3.Real("next_factor")
+    return [("step", z3.Implies(p == 0, p * x == 0))]
+
+
+@register
+class NormFactorVerified(Contract):
+    key = GS + ".norm_factor"
+    props = ["C02"]
+    loops = {0: _NfPowerLoop(), 1: _NfCompLoop(), 2: _NfProdLoop()}
+
+    def setup(self, vc):
+        return {"self": new_gs(vc), "order": Sym(vc.fresh_int("order"))}
+
+    def raises(self, vc, a):
+        return [("Inputerror", a["order"].t < 0)]
+
+    def apply(self, vc, a):
+        return _M.NormFactor.apply(self, vc, a)
+
+    def post(self, vc, a, result):
+        n = term(a["order"])
+        vc.assume(OVERLAP(0) == 1)
+        val = z3.RealVal(result) if isinstance(result, int) else as_expr(result).f["val"]
+        return [("is-the-series-coefficient-of-the-inverse-overlap",
+                 val == z3.If(n < 2, OVERLAP(n), NF_OUTER(n, n / 2)))]
